@@ -26,6 +26,7 @@ from puresnmp.plugins.mpm import AbstractEncodingResult, MessageProcessingModel
 from puresnmp.plugins.security import SecurityModel
 from puresnmp.plugins.security import create as create_sm
 from puresnmp.transport import MESSAGE_MAX_SIZE
+from puresnmp_plugins.security.usm import UnknownEngineId
 
 IDENTIFIER = 3
 
@@ -69,7 +70,16 @@ class V3MPM(MessageProcessingModel[V3EncodingResult, TV3SecModel]):
         if self.security_model is None:
             self.security_model = create_sm(security_model_id)
         message = Message.decode(whole_msg)
-        msg = self.security_model.process_incoming_message(message, credentials)
+        try:
+            msg = self.security_model.process_incoming_message(
+                message, credentials
+            )
+        except UnknownEngineId:
+            # Whatever we learned during discovery is not (or no longer)
+            # valid. Forget it, so the next request runs the discovery again
+            # instead of failing the same way forever.
+            self.disco = None
+            raise
         return msg.scoped_pdu.data
 
     async def encode(
